@@ -3,6 +3,7 @@ package an
 import (
 	"fmt"
 	"go/token"
+	"regexp"
 	"sort"
 	"strings"
 
@@ -337,16 +338,20 @@ func c08Quote(w *World, b *Backend, r *Result, filter func(method string) bool) 
 			if cmd != "read" {
 				continue
 			}
+			// every emitted form of the line is judged (a prompt and a no-prompt form are two lines)
+			txt, _ := flattenPUA(l.Variant)
 			c := fmt.Sprintf("roundtrip:bash:%s:read", method)
-			if seenRT[c] {
-				continue
+			for k := 2; seenRT[c]; k++ {
+				c = fmt.Sprintf("roundtrip:bash:%s:read#%d", method, k)
 			}
 			seenRT[c] = true
-			txt, _ := flattenPUA(l.Variant)
-			if !strings.Contains(txt, " -r") {
+			switch {
+			case !strings.Contains(txt, " -r"):
 				r.Bad(rt, c, pos, "run-time input is read without -r (backslashes are consumed, IFS trimming applies): "+l.Variant.String())
-			} else {
-				r.Ok(rt, c, pos, "read -r: "+l.Variant.String())
+			case !regexp.MustCompile(`(^|[;&|({]|\s)IFS=\s+read\b`).MatchString(txt):
+				r.Bad(rt, c, pos, "run-time input is read with the default IFS: leading and trailing blanks of the line are dropped: "+l.Variant.String())
+			default:
+				r.Ok(rt, c, pos, "IFS= read -r: "+l.Variant.String())
 			}
 		}
 	}
